@@ -267,7 +267,7 @@ def sx_bin(x):
     if _isinstance(x, SInt):
         if x < 0:
             return S.norm(['-', '0', 'b'] + S.chars_of(S.to_base_var(T.ineg(x), 1)))
-        x = T.refine(x, 0, x.hi) or x
+        x = T.refine_or(x, 0, x.hi)
         if not _isinstance(x, SInt):
             return bin(x)
         return S.norm(['0', 'b'] + S.chars_of(S.to_base_var(x, 1)))
@@ -280,7 +280,7 @@ def sx_hex(x):
     if _isinstance(x, SInt):
         if x < 0:
             return S.norm(['-', '0', 'x'] + S.chars_of(S.to_base_var(T.ineg(x), 4, upper=False)))
-        x = T.refine(x, 0, x.hi) or x
+        x = T.refine_or(x, 0, x.hi)
         if not _isinstance(x, SInt):
             return hex(x)
         return S.norm(['0', 'x'] + S.chars_of(S.to_base_var(x, 4, upper=False)))
